@@ -75,6 +75,10 @@ type Config struct {
 	SkipYield func(site string, draw func() uint64) bool
 	TraceCap  int // number of most recent events kept verbatim
 	EnvSeed   uint64
+	// Stall, if set, is consulted at every scheduling point of a task that holds
+	// the token; a positive duration makes the task sleep that long (simulated)
+	// before it parks: a stalled goroutine / slow node.
+	Stall func(site string, draw func() uint64) time.Duration
 	MaxDepth  int // a task whose stack is deeper than this many frames is killed and reported (0 = off)
 }
 
@@ -416,6 +420,14 @@ func (s *Sim) exitIfKilled(t *Task) {
 
 // park gives the token back and waits to be resumed.
 func (s *Sim) park(t *Task, kind waitKind, obj unsafe.Pointer, site string) {
+	if s.cfg.Stall != nil && !s.stopping && !t.killed && s.holdsToken(t) {
+		if d := s.cfg.Stall(site, s.env.Uint64); d > 0 {
+			s.mu.Lock()
+			s.Probes["stall"]++
+			s.mu.Unlock()
+			time.Sleep(d)
+		}
+	}
 	s.mu.Lock()
 	if t.killed || s.killedG[t.Group] && t.Group != "" {
 		t.killed = true
